@@ -361,6 +361,8 @@ func TestVerif_C10(t *testing.T) {
 			}
 		}
 	}
+	// (d) malformed address extensions in otherwise trusted client certificates
+	verifCorruptExtensionProbe(env, res, good, "C10")
 	var sb strings.Builder
 	sb.WriteString(coqCaseHeader)
 	sb.WriteString("From KM Require Import Base.Cases Model.KeyStrength.\nOpen Scope N_scope.\n")
